@@ -8,10 +8,11 @@ RESERVED = {'DispatcherOpen', 'DispatcherClose'}
 def gen_name(rng):
   stem = rng.choice(NAME_STEMS) + rng.choice(['', '', '1', 'X', '_y'])
   shape = rng.choice(['plain', 'plain', 'plain', '_x', 'x_', 'x__', '__x', '__x__', 'mid__dle',
-                      'x_async_y'])
+                      'x_async_y', 'x_async'])
   return {
     'plain': stem, '_x': '_' + stem, 'x_': stem + '_', 'x__': stem + '__', '__x': '__' + stem,
     '__x__': '__' + stem + '__', 'mid__dle': stem + '__' + stem, 'x_async_y': stem + '_async_y',
+    'x_async': stem + '_async',   # a method whose own name ends like the asynchronous form of another
   }[shape], shape
 
 
@@ -45,7 +46,7 @@ class C20(BaseCheck):
   ANCHORS = ('scales.core:ClientProxyBuilder._BuildServiceProxy',
              'scales.core:ScalesUriParser.Parse')
   REQUIRED_ANCHORS = ANCHORS
-  REQUIRED_CLASSES = ('name:plain', 'name:x_', 'name:x__', 'name:_x', 'name:__x__', 'uri:tcp', 'uri:zk',
+  REQUIRED_CLASSES = ('name:plain', 'name:x_', 'name:x__', 'name:_x', 'name:__x__', 'name:x_async', 'uri:tcp', 'uri:zk',
                       'uri:bad', 'result:error', 'result:later', 'inherited', 'function-name-differs', 'alias',
                       'uri:tcp-read-again', 'kwargs:loaded-names', 'ancestors-proxied-first', 'declared:classmethod', 'declared:staticmethod', 'declared:abstractmethod', 'uri:other-parser-extended')
   ASSUMPTIONS = ('public method = every user method that is not a dunder name (the property quantifies over names '
